@@ -20,6 +20,11 @@ var currentDataStruct *core_domain.CodeDataStruct
 
 // the classes whose definition is open, outermost first (a class may be defined inside a class)
 var openDataStructs []*core_domain.CodeDataStruct
+
+// how many defs are open inside the innermost open class (or inside the module, when no class is open); the depths of the
+// enclosing classes wait on the stack
+var funcDepth = 0
+var outerFuncDepths []int
 var debug = false
 var output io.Writer
 var hasEnterMember = false
@@ -29,6 +34,8 @@ func NewPythonIdentListener(fileName string) *PythonIdentListener {
 	currentCodeFile.FullName = fileName
 	currentDataStruct = nil
 	openDataStructs = nil
+	funcDepth = 0
+	outerFuncDepths = nil
 	output = os.Stdout
 
 	return &PythonIdentListener{}
@@ -94,10 +101,17 @@ func (s *PythonIdentListener) EnterClassdef(ctx *parser.ClassdefContext) {
 
 	openDataStructs = append(openDataStructs, dataStruct)
 	currentDataStruct = dataStruct
+	// the defs of this class are counted from zero, also when the class stands inside a def
+	outerFuncDepths = append(outerFuncDepths, funcDepth)
+	funcDepth = 0
 }
 
 func (s *PythonIdentListener) ExitClassdef(ctx *parser.ClassdefContext) {
 	hasEnterMember = false
+	if len(outerFuncDepths) > 0 {
+		funcDepth = outerFuncDepths[len(outerFuncDepths)-1]
+		outerFuncDepths = outerFuncDepths[:len(outerFuncDepths)-1]
+	}
 	if len(openDataStructs) == 0 {
 		return
 	}
@@ -118,6 +132,11 @@ func (s *PythonIdentListener) ExitClassdef(ctx *parser.ClassdefContext) {
 
 func (s *PythonIdentListener) EnterFuncdef(ctx *parser.FuncdefContext) {
 	hasEnterMember = true
+	funcDepth++
+	if funcDepth > 1 {
+		// a def inside a def is neither a method of the class nor a function of the module
+		return
+	}
 	function := core_domain.CodeFunction{
 		Name: ctx.Name().GetText(),
 	}
@@ -141,6 +160,9 @@ func (s *PythonIdentListener) EnterFuncdef(ctx *parser.FuncdefContext) {
 
 func (s *PythonIdentListener) ExitFuncdef(ctx *parser.FuncdefContext) {
 	hasEnterMember = false
+	if funcDepth > 0 {
+		funcDepth--
+	}
 }
 
 func BuildDecoratorsByIndex(node antlr.ParseTree, index int) []core_domain.CodeAnnotation {
